@@ -3,7 +3,7 @@ use super::Rule;
 use super::{Calculator, Controller};
 use crate::base::MetricEvent;
 use crate::{config, logging, utils};
-use std::sync::{
+use crate::vsync::{
     atomic::{AtomicU64, Ordering},
     Arc, Weak,
 };
